@@ -11,7 +11,7 @@ MODES = ["-", "h", "j", "c", "D"]
 CONFLICTS = ["hj", "jh", "hc", "hD", "jc", "cj", "jD", "Dj", "cD", "hjcD", "jm", "Dm"]
 GOOD_FILES = ["test.dmp", "linux-mini.dmp", "simple-crashpad.dmp", "pipeline-inlines-macos-segv.dmp"]
 BAD_FILES = ["invalid-parameter.dmp", "invalid-range.dmp", "invalid-record-count.dmp", "full-dump.dmp"]
-NSYNTH = 7
+NSYNTH = 8
 FIELDS = ["input", "sym", "modes", "brief", "pretty", "feat", "rfa", "out", "cy", "log", "verbose", "stdout", "evil", "noflags", "lim", "ldi"]
 # the accepted output option sets: (modes, brief, pretty)
 ACCEPTED = [(m, b, 0) for m in ("-", "h", "D") for b in (0, 1)] + [("j", 0, p) for p in (0, 1)] + \
@@ -455,7 +455,7 @@ class C20(PropBase):
             for nm, s in outputs:
                 if sink_len(s):
                     return "a rejected option combination wrote %d bytes to %s" % (sink_len(s), nm)
-            if stderr == 0 and not (logf and c["log"] == "g"):
+            if stderr == 0 and not (logf and (c["log"] == "g" or has_prestate(c["log"]))):
                 return "a rejected option combination failed without a diagnostic" + (" (--verbose=off)" if c["verbose"] == "off" else "")
             return None
         if ex == "2":
@@ -534,11 +534,13 @@ class C20(PropBase):
             if k in stale:
                 return "%s still holds bytes of what the path held before the run (%s bytes before, exit status %s)" % (
                     nm, a.get("pre", "-/-/-").split("/")[("out", "cy", "log").index(k)], a["exit"])
-        if a.get("logref", "-") == "diff" and c["verbose"] in ("e", "off", "error", "warn", "info"):
+        uses_urls = c["sym"][0] == "U" or (c["sym"][0] == "M" and any(ch.isdigit() for ch in c["sym"]))
+        if a.get("logref", "-") == "diff" and c["verbose"] in ("e", "off", "error", "warn", "info") and not uses_urls:
+            # (with --symbols-url the reference run finds the cache filled by the first one and may log differently)
             return "the --log-file is not what the same command writes to a fresh log path (the path held %s bytes before the run)" % \
                 a.get("pre", "-/-/-").split("/")[2]
         sc = a.get("symc", "-")
-        if sc != "-" and a["exit"] == "0":
+        if sc != "-" and a["exit"] == "0" and a["lib"] == "O" and "D" not in c["modes"]:     # --dump does not look for symbols
             tc, tt, lc, lt = sc.split("/")
             if tc != lc:
                 return "the symbol cache directory of the tool holds %s files after the run, the library's %s (same URLs, fresh directories)" % (tc, lc)
